@@ -447,7 +447,7 @@ func runC08(r *mon.Run) {
 	r.SetRule("random histories of 4-20 operations over one File (File.Render, File.GoString, Statement.RenderWithFile, Group.RenderWithFile — each render performed twice in a row —, renders whose writer fails on purpose, adding statements, ImportName/ImportNames/ImportAlias incl. '.', for fresh and already rendered paths, Anon of unreferenced paths, PackagePrefix toggles); Files with/without local path, prefix, NoFormat; statements with case blocks (empty/nil bodies), Dicts, Tags, nil items; judged offline on the recorded event log: repeat-equal, name-monotone, declared. non-trivial = history with >=2 renders; distinct by operation sequence")
 	r.Assume("Anon on an already referenced path is excluded (as the statement says)")
 	c08NegControls(r)
-	n := r.Pick(3000, 60000)
+	n := r.Pick(3000, 100000)
 	mon.Parallel(n, func(i int) { c08Case(r, int64(i)) })
 }
 
